@@ -10,11 +10,11 @@ while iterating).
 import ast
 from ..fn import World
 from ..index import AnalysisError, dotted
-from ..astutil import text, short, endswith, calls_in, walk_no_nested
+from ..astutil import text, short, endswith, calls_in
 from .. import events as E
 from . import _h_C as H
 from . import c05
-from .c11 import _stmt_of, _single, _owner
+from .c11 import _single, _owner
 
 EXPLANATION = (
   "Decides that the probe key and the index key of a lookup are normalised and typed alike: "
@@ -66,11 +66,12 @@ def r1_key_normalisation(run, w):
     flow = H.Flow(fn)
     p = fn.fi.params()[1]
     uses = []
+    is_param = lambda x: isinstance(x, ast.Name) and x.id == p
     for (n, c, nm) in fn.calls():
-      if dotted(c.func) in ("tuple", "_extract"):
+      if dotted(c.func) in ("tuple", "_extract", "list"):
         continue
       for a in list(c.args) + [k.value for k in c.keywords]:
-        if any(isinstance(x, ast.Name) and x.id == p for x in ast.walk(a)):
+        if flow.du.flows_from(is_param, a):
           uses.append((n, c, a))
     if not uses:
       raise AnalysisError("%s: the key is not handed on" % q)
@@ -308,6 +309,11 @@ def r2_index_maintenance(run, w):
   okr = bool(rets)
   for r in rets:
     v = r.value
+    if isinstance(v, ast.Name):
+      # result held in a local: look at what it was built from
+      rs = flow.roots(v, flow.node_of(v))
+      if len(rs) == 1 and rs[0].kind in ("comp", "lit") and not rs[0].path:
+        v = rs[0].node
     names = {x.id for x in ast.walk(v) if isinstance(x, ast.Name)} if v is not None else set()
     if OLD not in names:
       okr = False
@@ -428,9 +434,19 @@ def r3_lookup_one(run, w):
     empty = [r for r in rs if r.kind == "const" and r.node.value == 0 and not r.path]
     ok = len(rs) == 2 and len(first) == 1 and len(empty) == 1
     # ... and the choice between them is the emptiness of the row list
-    conds = [x for x in ast.walk(go.node) if isinstance(x, ast.IfExp)]
-    ok = ok and len(conds) == 1 and text(conds[0].test) == "self._row_ids" and \
-        text(conds[0].body) == "self._row_ids[0]"
+    if ok:
+      conds = [(x.test, x.body) for x in ast.walk(go.node) if isinstance(x, ast.IfExp)] + \
+          [(x.test, x.body[0].value) for x in ast.walk(go.node) if isinstance(x, ast.If) and
+           len(x.body) == 1 and isinstance(x.body[0], ast.Assign)]
+      if len(conds) != 1:
+        raise AnalysisError("RecordSet.get_one: cannot find the choice between first row and 0")
+      t, when_true = conds[0]
+      nonempty = text(t) in ("self._row_ids", "len(self._row_ids) > 0", "len(self._row_ids)",
+                             "len(self._row_ids) != 0")
+      isempty = text(t) in ("not self._row_ids", "len(self._row_ids) == 0")
+      if not (nonempty or isempty):
+        raise AnalysisError("RecordSet.get_one: unrecognised emptiness test %s" % short(t))
+      ok = (text(when_true) == "self._row_ids[0]") == nonempty
   run.ob(R3, go.qualname, "self._table.Record(self._row_ids[0] if self._row_ids else 0, ...)",
          "the first row in the documented order, or the empty record (row id 0) when nothing "
          "matches", ok, fi=go.fi)
